@@ -94,6 +94,22 @@ def run_timers(prop, tier, seed, cap=None):
     if len(behs) > cap:
         random.Random(seed).shuffle(behs)
         behs = behs[:cap]
+    # key-reuse focused configurations: exhaustive, every final state exported
+    for kc in ("MCTimers_keysf.cfg", "MCTimers_keysv.cfg", "MCTimers_long.cfg", "MCTimers_near.cfg"):
+        st, tr, bad, text = _tlc_mc("MCTimers.tla", kc, "tmk-%s" % prop)
+        out["states"] += st
+        out["transitions"] += tr
+        out["specs"].append("Timers/" + kc)
+        if bad and "TCASE" not in bad.split("Error")[1][:200]:
+            out["violations"].append({"why": "design spec Timers (%s) violates the abstract monitor" % kc,
+                                      "replay": _save("%s-timers-%s" % (prop, kc), text), "sig": "tlc"})
+            return out
+        kb = coreexport.parse_cases(text, "TCASE")
+        kcap = 1200 if tier == "quick" else 100000
+        if len(kb) > kcap:
+            random.Random(seed + 1).shuffle(kb)
+            kb = kb[:kcap]
+        behs += kb
     for i, b in enumerate(behs):
         out["cases"].append(coreexport.build_timer_case(b, "tm-%d" % i))
     return out
